@@ -124,6 +124,10 @@ class ArraySys(System):
             return 7, np.array([7], dtype=dt)
         if colour == 'badtrail':
             return np.zeros((1,) + tr[:-1] + ((tr[-1] + 1,) if tr else (3,)), dtype=dt), None
+        if colour == 'badtrail0':     # zero rows, wrong trailing shape: nothing to write, still incompatible
+            return np.zeros((0,) + tr[:-1] + ((tr[-1] + 1,) if tr else (3,)), dtype=dt), None
+        if colour == 'badzero':       # rows whose trailing shape has a zero extent
+            return np.zeros((2,) + tr[:-1] + (0,), dtype=dt), None
         if colour == 'badrank':
             if tr:
                 return np.zeros(tr, dtype=dt), None       # one row given without its first axis
@@ -154,7 +158,7 @@ class ArraySys(System):
         full = 'model' in self.oracles
         ops += [('append', 'Z'), ('iterappend', 'empty'), ('append', 'badtrail')]
         if full:
-            ops += [('append', 'badrank'), ('append', 'unconv')]
+            ops += [('append', 'badrank'), ('append', 'unconv'), ('append', 'badtrail0'), ('append', 'badzero')]
         if n > 0:
             ops += [('assign', 0, 'V1'), ('assign', -1, 'V2')]
         ops += [('truncate', k) for k in (TRUNC_KS if full else [0, -1, 'len+1'])]
